@@ -104,7 +104,7 @@ def judgeOp (cap : Nat) (op : Op) (A B : Operand) (rhs : Tok) : String :=
       else if (match R with | some (.box mn mx) => decide (mx.x < mn.x) || decide (mx.y < mn.y) | _ => false) then
         s!"SPEC {cls} result-box-inverted (negative extent: not a region)"
       else
-        let ok := Valid A && Valid B && GeneralPosition A B
+        let ok := Valid A && Valid B && GeneralPosition A B && nestedCheck (cap / 4) A B
         let (bad, n) := if ok then sampleCheck cap op A B R else (none, 0)
         match bad with
         | some p => s!"SPEC {cls} pointset p={showP p} result={memberRes R p} A={member A p} B={member B p} samples={n}"
